@@ -9,6 +9,7 @@ import scenarios as SC
 import c14_pipeline as CP
 import c14_tissue as CT
 import c14_remesh as CRM
+import c14_tissue_remesh as CTR
 
 PID = "C14"
 NAMESPACE = "Simu.C14"
@@ -214,11 +215,21 @@ def run(ctx):
             V.fail_tie("proof", "leanchecker rejected SimuVerif.Properties.C14Remesh", log=log)
     remesh = {}
     CRM.run_remesh(V, "thorough" if (tier == "thorough" or not proofR["ok"]) else "quick", seed, remesh)      # widens when a proof broke
+    # tissues of interacting cells THROUGH remeshing: Model/TissueR.lean, Properties/C14TissueR.lean
+    proofTR = CTR.prove_tissueR()
+    for f in proofTR["failures"]:
+        V.fail_tie("proof", "%s: %s" % (f["theorem"], f["reason"]), errors=proofTR["errors"][:5])
+    if tier == "thorough" and proofTR["ok"]:
+        ok, log = vlib.leanchecker("SimuVerif.Properties.C14TissueR")
+        if not ok:
+            V.fail_tie("proof", "leanchecker rejected SimuVerif.Properties.C14TissueR", log=log)
+    tissueR = {}
+    CTR.run_tissueR(V, "thorough" if (tier == "thorough" or not proofTR["ok"]) else "quick", seed, tissueR)      # widens when a proof broke
     r = vlib.Rng(seed)
     exe, rebuilt = SC.build("asan")
     divstats = {}
     division_oracle(V, exe, vlib.Rng(seed).fork("c14/division"), tier, divstats)
-    wide = tier == "thorough" or not (proof["ok"] and proofP["ok"] and proofT["ok"] and proofR["ok"])
+    wide = tier == "thorough" or not (proof["ok"] and proofP["ok"] and proofT["ok"] and proofR["ok"] and proofTR["ok"])
     kinds = ["single", "separated", "adhering", "overlapping-mixed"]
     evaluations = 0
     distinct = set()
@@ -265,20 +276,22 @@ def run(ctx):
                 samples.append({"tissue": kind, "translation": t, "iterations": iters, "cells": ref[0]["ncells"] if ref else None})
     rcode, nviol = V.finish()
     cov = {
-        "obligations": proof["obligations"] + proofP["obligations"] + proofT["obligations"] + proofR["obligations"],
-        "discharged": proof["discharged"] + proofP["discharged"] + proofT["discharged"] + proofR["discharged"],
+        "obligations": proof["obligations"] + proofP["obligations"] + proofT["obligations"] + proofR["obligations"] + proofTR["obligations"],
+        "discharged": proof["discharged"] + proofP["discharged"] + proofT["discharged"] + proofR["discharged"] + proofTR["discharged"],
         "checker_cmd": "lake build SimuVerif.Properties.C14 SimuVerif.Audit.C14 (+ leanchecker in the thorough tier)",
         "trusted_base": vlib.TRUSTED_COMMON + [
             "the stages are assembled into one executable model of solver::run_iteration for a single free cell AND for tissues of interacting epithelial cells (contact search on the re-anchored grid, coupling pass, polarisation, node normals, forces, integrator), bit-identical to the real solver (1 thread) while no cell divides / is removed and all edges stay in the refinement band; tissueRun_translate / tissueRun_observables / domain_translate proved for all such tissues with closed meshes (hypotheses TissueSetup, Wf evaluated on every instance); outside that domain (remeshing, division, removal) only the stage theorems + the two-run oracle; the loops and bindings of Model/Tissue.lean are tied to the code by the differential run (single-thread search order), its arithmetic is Gen.*",
-            "the single free cell is also modelled THROUGH remeshing: refine_mesh (splits, collapses, swaps) and the rebase of save_mesh are steps of the assembled model (Model/PipelineR.lean on C01's Remesh.Cell), bit-identical to the real solver incl. slot numbering, edge index and free queues; refineMesh_translate / cellRunR_translate / cellRunR_observables / domainR_translate proved for every cell state on which the decidable hypotheses refineLive (no released node slot is read: node::reset writes the absolute position (0,0,0) there; evaluated on every executed pass, never false) and meshOk hold; outside: division, removal, more than one cell with remeshing, OpenMP order, rounding",
+            "the single free cell is also modelled THROUGH remeshing: refine_mesh (splits, collapses, swaps) and the rebase of save_mesh are steps of the assembled model (Model/PipelineR.lean on C01's Remesh.Cell), bit-identical to the real solver incl. slot numbering, edge index and free queues; refineMesh_translate / cellRunR_translate / cellRunR_observables / domainR_translate proved for every cell state on which the decidable hypotheses refineLive (no released node slot is read: node::reset writes the absolute position (0,0,0) there; evaluated on every executed pass, never false) and meshOk hold; outside: division, removal, OpenMP order, rounding",
+            "tissues of N interacting epithelial cells are modelled THROUGH remeshing as well (Model/TissueR.lean: per cell refine_mesh in the order / with the exception rule of parallel_exception_handler run by one thread, the rebase of save_mesh, cells kept as C01's Remesh.Cell so that contact search, coupling pass, polarisation, node normals, forces and integrator run on meshes WITH released node / face slots), bit-identical to the real solver incl. slot numbering, edge index, free queues and the node attributes of released slots; tissueIterationR_translate / tissueRunR_translate / tissueRunR_observables / domainTR_translate proved for every state on which the decidable domain predicate stepOkTR (refineLive + replayOk per cell, cellMeshOk of the refined cells, defined coupling pass, couplings on used slots, no division / removal; evaluated on every executed iteration, never false) and TissueSetup hold",
             "rounding is run-time only: allowed deviation per node = size*(1e-8 + iters*20 eps (r+10)), r = offset/size <= 1e5 (linear in r: the coordinates carry the shape to r*eps; no cubic term since the volume determinants are centred on a node of the cell)"],
-        "theorems": dict(list(proof["axioms"].items()) + list(proofP["axioms"].items()) + list(proofT["axioms"].items()) + list(proofR["axioms"].items())),
-        "proof_failures": proof["failures"] + proofP["failures"] + proofT["failures"] + proofR["failures"],
+        "theorems": dict(list(proof["axioms"].items()) + list(proofP["axioms"].items()) + list(proofT["axioms"].items()) + list(proofR["axioms"].items()) + list(proofTR["axioms"].items())),
+        "proof_failures": proof["failures"] + proofP["failures"] + proofT["failures"] + proofR["failures"] + proofTR["failures"],
         "assembled_tissue_iteration": tissue,
         "assembled_iteration_with_remeshing": remesh,
+        "assembled_tissue_iteration_with_remeshing": tissueR,
         "division_oracle": divstats.get("division_oracle"),
         "assembled_single_cell_iteration": pipe.get("stats"), "translator": {k: v.get("sha256", v.get("error")) for k, v in gen.items()},
-        "evaluations": evaluations + tissue.get("oracle_runs", 0) + len(tissue.get("scenarios", [])) + remesh.get("oracle_runs", 0) + len(remesh.get("scenarios", [])), "distinct_nontrivial": len(distinct),
+        "evaluations": evaluations + tissue.get("oracle_runs", 0) + len(tissue.get("scenarios", [])) + remesh.get("oracle_runs", 0) + len(remesh.get("scenarios", [])) + tissueR.get("oracle_runs", 0) + len(tissueR.get("scenarios", [])), "distinct_nontrivial": len(distinct),
         "rule": "pairs of real solver runs (generated tissues: single cell, separated, adhering, overlapping cells of mixed types; 40-300 iterations, deterministic parameters) that differ by a translation of the input file (offset/size 1e-2 .. 1e3 and 1e5, random directions, one straddling the origin); distinct = distinct (tissue, offset ratio, swap flag)",
         "worst_deviation_over_size_by_ratio": worst_by_ratio, "late_connectivity_divergences_after_iteration_%d" % STRICT_ITERS: late_divergences, "repo_objects_rebuilt": rebuilt, "samples": samples,
     }
@@ -288,6 +301,8 @@ def run(ctx):
 
 def replay(ctx):
     inp = ((ctx["replay"] or {}).get("failing_input") or {}).get("input") or {}
+    if isinstance(inp, dict) and inp.get("stage") == "tissueR":
+        return CTR.replay(ctx)
     if isinstance(inp, dict) and "lmin" in inp and inp.get("part") in ("oracle", "correspondence"):
         return CRM.replay(ctx)
     if isinstance(inp, dict) and inp.get("part") in ("oracle", "correspondence"):
